@@ -35,8 +35,10 @@ MANIFEST = {
 }
 RULE = ("histories of 1-3 runs on one Spinner over one virtual reactor; each run: function shape (return/raise, "
         "already-fired Deferred, Deferred firing/failing at t in {<,=,>} timeout, never) x 0-3 extra delayed calls x "
-        "0-2 selectables x stop request (none / synchronous / at an instant <,=,> the others) x re-entrant call x "
-        "(through the same or another Spinner on the same reactor) x handler installed by the function x "
+        "0-2 selectables x stop request (none / synchronous / at an instant <,=,> the others) x 0-3 re-entrant calls "
+        "made by the function itself, each swallowed by the caller (each through the same or another Spinner on the "
+        "same reactor) x delayed calls that try a re-entrant run when they run (any instant, incl. the instant the "
+        "run ends, before and after the ending event) x handler installed by the function x "
         "pre-installed handler per signal (SIG_DFL, SIG_IGN, default_int_handler, callables, getsignal()=None) x "
         "reactor.stop before the call (stock / instance-level override installed before the first run or between "
         "runs / override removed) x clear_junk or not x tie-break oracle x reactor running one call or one instant "
@@ -188,16 +190,40 @@ def drive(case):
                 else:
                     reactor.stop = overrides[run["rstop"]]
             ran = []
-            reentry = [None]
+            reentry = []           # one entry per re-entrant attempt, in order: refused and nothing changed
             order_from = len(reactor.order)
 
             def mark(obj, tok):
                 toks[id(obj)] = tok
                 keep.append(obj)
 
-            def function(run=run, ran=ran, reentry=reentry, mark=mark):
+            def attempt(other, reentry=reentry):
+                """Somebody calls run() while this run is in progress - through the same Spinner, or through ANOTHER
+                Spinner on the same reactor - and swallows whatever comes out (a retry loop, an independent helper)."""
+                inner = _spinner.Spinner(reactor) if other else spinner
+                nested_ran = []
+
+                def snap():
+                    return (len(reactor.getDelayedCalls()), len(reactor.getReaders()), list(spinner.get_junk()),
+                            list(inner.get_junk()), [sigmod.getsignal(s) for s in sigs], reactor.running,
+                            reactor.stop, reactor.really_stopped)
+                before = snap()
+                try:
+                    inner.run(5, lambda: nested_ran.append(1) or 7)
+                    reentry.append(False)
+                except _spinner.ReentryError:
+                    # refused: its function did not run, nothing was scheduled, saved or changed
+                    reentry.append(before == snap() and not nested_ran)
+                except BaseException:
+                    reentry.append(False)
+
+            def function(run=run, ran=ran, mark=mark, attempt=attempt):
+                xre = run.get("xre") or [None] * len(run["extras"])
                 for i, d in enumerate(run["extras"]):
-                    mark(reactor.callLater(d, ran.append, 10 + i), 10 + i)
+                    if xre[i] is None:
+                        mark(reactor.callLater(d, ran.append, 10 + i), 10 + i)
+                    else:
+                        mark(reactor.callLater(d, lambda i=i, o=xre[i]: (ran.append(10 + i), attempt(o))), 10 + i)
                 for j in range(run["sels"]):
                     sel = object()
                     mark(sel, 100 + j)
@@ -206,24 +232,8 @@ def drive(case):
                     mark(reactor.callLater(run["stop"], lambda: (ran.append(2), reactor.stop())), 2)
                 if run["setsig"] is not None:
                     sigmod.signal(sigs[run["setsig"][0]], _handlers()[run["setsig"][1]])
-                if run["reenter"]:
-                    # through the same Spinner, or through ANOTHER Spinner on the same reactor
-                    inner = _spinner.Spinner(reactor) if run.get("other") else spinner
-                    nested_ran = []
-
-                    def snap():
-                        return (len(reactor.getDelayedCalls()), len(reactor.getReaders()), list(spinner.get_junk()),
-                                list(inner.get_junk()), [sigmod.getsignal(s) for s in sigs], reactor.running,
-                                reactor.stop, reactor.really_stopped)
-                    before = snap()
-                    try:
-                        inner.run(5, lambda: nested_ran.append(1) or 7)
-                        reentry[0] = False
-                    except _spinner.ReentryError:
-                        # refused: its function did not run, nothing was scheduled, saved or changed
-                        reentry[0] = before == snap() and not nested_ran
-                    except BaseException:
-                        reentry[0] = False
+                for other in run["reenter"]:
+                    attempt(other)
                 if run["stop_now"]:
                     reactor.stop()
                 sh = run["shape"]
@@ -265,7 +275,7 @@ def drive(case):
                 res = ["raised", "other"]
             except Exception as e:
                 res = ["raised", excs.index(type(e))] if type(e) in excs else ["raised", "other"]
-            o = {"res": res, "reentry": reentry[0], "ran": sorted(ran),
+            o = {"res": res, "reentry": list(reentry), "ran": sorted(ran),
                  "order": [toks.get(id(c), 0) for c in reactor.order[order_from:]],
                  "junk": sorted(toks.get(id(x), 0) for x in spinner.get_junk()),
                  "running": bool(reactor.running), "pending": len(reactor.getDelayedCalls()),
@@ -295,10 +305,13 @@ def t_shape(sh):
 
 def t_run(r):
     fn = "(mkFn %s %s %s %s %s %s %s)" % (
-        t_shape(r["shape"]), q.lst([q.nat(d) for d in r["extras"]]), q.nat(r["sels"]),
-        q.option(r["stop"], q.nat), q.boolean(r["stop_now"]), q.boolean(r["reenter"]),
+        t_shape(r["shape"]),
+        q.lst([q.pair(q.nat(d), q.option(x, q.boolean))
+               for d, x in zip(r["extras"], r.get("xre") or [None] * len(r["extras"]))]),
+        q.nat(r["sels"]),
+        q.option(r["stop"], q.nat), q.boolean(r["stop_now"]), q.lst([q.boolean(o) for o in r["reenter"]]),
         q.option(r["setsig"], lambda p: q.pair("(nth %d reactor_signals 0)" % p[0], q.nat(p[1]))))
-    return "(mkRun %s %s %s %s %s %s)" % (q.boolean(r.get("other", False)), q.boolean(r["clear"]),
+    return "(mkRun %s %s %s %s %s)" % (q.boolean(r["clear"]),
                                          q.lst([q.nat(h) for h in r["pre"]]), q.option(r.get("rstop"), q.nat),
                                          q.nat(r["timeout"]), fn)
 
@@ -317,7 +330,7 @@ def t_res(res):
 
 def t_obs(o):
     return "(mkObs %s %s %s %s %s %s %s %s %s %s %s)" % (
-        t_res(o["res"]), q.option(o["reentry"], q.boolean), q.lst([q.nat(x) for x in o["ran"]]),
+        t_res(o["res"]), q.lst([q.boolean(b) for b in o["reentry"]]), q.lst([q.nat(x) for x in o["ran"]]),
         q.lst([q.nat(x) for x in o["order"]]), q.lst([q.nat(x) for x in o["junk"]]), q.boolean(o["running"]), q.nat(o["pending"]), q.nat(o["readers"]),
         q.nat(o["stop"]), q.boolean(o["stopped"]), q.lst([q.nat(x) for x in o["sigs"]]))
 
@@ -344,9 +357,17 @@ NONE_HANDLERS = True
 
 def mkrun(shape, extras=(), sels=0, stop=None, stop_now=False, reenter=False, setsig=None, pre=(0, 0, 0),
           clear=True, timeout=T, other=False, rstop=None):
-    return {"clear": clear, "pre": list(pre), "timeout": timeout, "shape": list(shape), "extras": list(extras),
-            "sels": sels, "stop": stop, "stop_now": stop_now, "reenter": reenter, "setsig": setsig,
-            "other": bool(other), "rstop": rstop}
+    # reenter: False / True (one attempt, through another Spinner if other) / a list of attempts (True = other Spinner);
+    # extras: delays, or (delay, x) with x None (does nothing) / False / True (tries a re-entrant run when it runs)
+    if reenter is True:
+        reenter = [bool(other)]
+    elif reenter is False:
+        reenter = []
+    ex = [e if isinstance(e, (tuple, list)) else (e, None) for e in extras]
+    return {"clear": clear, "pre": list(pre), "timeout": timeout, "shape": list(shape),
+            "extras": [e[0] for e in ex], "xre": [e[1] for e in ex],
+            "sels": sels, "stop": stop, "stop_now": stop_now, "reenter": [bool(o) for o in reenter], "setsig": setsig,
+            "rstop": rstop}
 
 
 def shapes():
@@ -366,15 +387,21 @@ def rand_run(rng, simple=False):
     if sh[0] == "later":
         times += [sh[1], sh[1], max(0, sh[1] - 1), sh[1] + 1]
     extras = [rng.choice(times) for _ in range(rng.choice([0, 0, 1, 1, 2, 3]))]
+    if not simple:
+        # some of the delayed calls try a re-entrant run when they run
+        extras = [(d, rng.choice([False, True]) if rng.random() < 0.2 else None) for d in extras]
     stop = rng.choice(times) if rng.random() < 0.4 else None
     pre = [rng.choice(PRE_VALUES) for _ in range(3)] if rng.random() < 0.6 else [0, 0, 0]
     # who reactor.stop is before the call: mostly left as the previous run left it, else (re)installed / removed
     rstop = rng.choice([None, None, None, 0, 1, 2, 3])
     if simple:
         return mkrun(sh, extras, rng.choice([0, 0, 1]), stop, False, False, None, pre, True, timeout, rstop=rstop)
-    return mkrun(sh, extras, rng.choice([0, 0, 0, 1, 2]), stop, rng.random() < 0.1, rng.random() < 0.2,
+    # re-entrant attempts made by the function itself: none, one, or several (each through the same / another Spinner)
+    n_re = rng.choice([0, 0, 0, 0, 0, 0, 1, 1, 2, 3])
+    return mkrun(sh, extras, rng.choice([0, 0, 0, 1, 2]), stop, rng.random() < 0.1,
+                 [rng.random() < 0.5 for _ in range(n_re)],
                  [rng.randrange(3), 8] if rng.random() < 0.15 else None, pre,
-                 rng.random() < 0.75, timeout, other=rng.random() < 0.5, rstop=rstop)
+                 rng.random() < 0.75, timeout, rstop=rstop)
 
 
 def generate(rng, tier):
@@ -427,6 +454,19 @@ def generate(rng, tier):
             pre[k] = h
             fixed.append([mkrun(ok, pre=pre), mkrun(never, pre=pre, stop=1)])
             fixed.append([mkrun(err, pre=pre, rstop=1)])
+    # re-entrant use is refused EVERY time: several attempts inside one run (the caller swallows the refusal and tries
+    # again / two independent helpers), through the same and through another Spinner, synchronously and from delayed
+    # calls at any instant of the run (before, at and - same reactor iteration - after the event that ends it)
+    fixed += [
+        [mkrun(ok, reenter=[False, False])],
+        [mkrun(ok, reenter=[True, True])],
+        [mkrun(ok, reenter=[False, True, False])],
+        [mkrun(err, reenter=[True, False, True]), mkrun(ok, reenter=[False])],
+        [mkrun(["later", 2, "ok", 5], reenter=[False, False], extras=[(1, False), (1, True), (9, False)])],
+        [mkrun(["later", 2, "err", 1], reenter=[True], extras=[(0, True), (1, True)], pre=(3, 1, 4), rstop=1)],
+        [mkrun(never, extras=[(1, False), (2, False), (T, True)], sels=1), mkrun(ok, reenter=[False, False])],
+        [mkrun(never, stop=2, extras=[(1, True), (2, False), (2, True)], reenter=[False])],
+    ]
     if NONE_HANDLERS:
         for k in range(3):
             pre = [2, 3, 0]
@@ -446,6 +486,14 @@ def generate(rng, tier):
             cases.append({"oracle": orc, "batch": True, "runs": [mkrun(["later", T, kind, x]), mkrun(ok)]})
             cases.append({"oracle": orc, "batch": True,
                           "runs": [mkrun(["later", T, kind, x], stop=T, extras=[T]), mkrun(never, stop=2)]})
+    # re-entrant attempts from delayed calls due at the very instant the run ends, in every order with the ending event
+    for orc in ([], [1], [2], [3], [0, 1], [2, 0], [1, 1, 1], [3, 2, 1]):
+        for b in (False, True):
+            cases.append({"oracle": orc, "batch": b,
+                          "runs": [mkrun(["later", T, "ok", 6], extras=[(T, False), (T, True)], reenter=[False]),
+                                   mkrun(ok, reenter=[True, False])]})
+            cases.append({"oracle": orc, "batch": b,
+                          "runs": [mkrun(never, stop=3, extras=[(3, True), (3, False)])]})
     # bounded-exhaustive core: single runs, shape x stop x one extra x oracle
     stops = [None, 0, T - 2, T, T + 2]
     for sh, stop, extra, orc in itertools.product(shapes(), stops, [None, 0, T, T + 4], [[], [1], [2, 1]]):
@@ -494,18 +542,22 @@ def shrink(case):
             r2 = dict(r)
             r2.update(kw)
             return {"oracle": case["oracle"], "batch": b, "runs": runs[:k] + [r2] + runs[k + 1:]}
+        xre = r.get("xre") or [None] * len(r["extras"])
         for j in range(len(r["extras"])):
-            yield rep(extras=r["extras"][:j] + r["extras"][j + 1:])
+            yield rep(extras=r["extras"][:j] + r["extras"][j + 1:], xre=xre[:j] + xre[j + 1:])
+        for j in range(len(xre)):
+            if xre[j] is not None:
+                yield rep(xre=xre[:j] + [None] + xre[j + 1:])
         if r["sels"]:
             yield rep(sels=r["sels"] - 1)
         if r["stop"] is not None:
             yield rep(stop=None)
         if r["stop_now"]:
             yield rep(stop_now=False)
-        if r["reenter"]:
-            yield rep(reenter=False)
-        if r.get("other"):
-            yield rep(other=False)
+        for j in range(len(r["reenter"])):
+            yield rep(reenter=r["reenter"][:j] + r["reenter"][j + 1:])
+        if any(r["reenter"]):
+            yield rep(reenter=[False] * len(r["reenter"]))
         if r["setsig"] is not None:
             yield rep(setsig=None)
         if r["pre"] != [0, 0, 0]:
@@ -524,7 +576,8 @@ def shrink(case):
 def distribution(cases):
     d = {"runs_per_history": {}, "shape": {}, "with_stop_request": 0, "with_tie_at_timeout": 0, "with_oracle": 0,
          "batch_reactor": sum(1 for c in cases if c.get("batch")),
-         "reentrant_through_other_spinner": sum(1 for c in cases for r in c["runs"] if r["reenter"] and r.get("other")),
+         "reentrant_through_other_spinner": sum(1 for c in cases for r in c["runs"] if any(r["reenter"])),
+         "reentrant_attempts_per_run": {}, "runs_with_reentrant_delayed_call": 0,
          "with_extras": 0, "with_selectables": 0, "reentrant": 0, "stale_junk_not_cleared": 0,
          "nondefault_handlers": 0, "stop_override_installed": 0, "stop_override_removed": 0,
          "pre_handler_by_signal": {n: {} for n in SIGNAMES}}
@@ -541,7 +594,10 @@ def distribution(cases):
                 r["stop"] == r["timeout"]
             d["with_extras"] += bool(r["extras"])
             d["with_selectables"] += bool(r["sels"])
-            d["reentrant"] += r["reenter"]
+            d["reentrant"] += bool(r["reenter"])
+            k = str(len(r["reenter"]))
+            d["reentrant_attempts_per_run"][k] = d["reentrant_attempts_per_run"].get(k, 0) + 1
+            d["runs_with_reentrant_delayed_call"] += any(x is not None for x in (r.get("xre") or []))
             d["stale_junk_not_cleared"] += not r["clear"]
             d["nondefault_handlers"] += r["pre"] != [0, 0, 0]
             d["stop_override_installed"] += bool(r.get("rstop"))
